@@ -574,6 +574,21 @@ theorem sens_physical_raises_iff (N : Num K) (S : Special K) (trip : K → K) (s
   cases h1 : uniValue S d.lo d.hi (trip (sensCellDim N scale d k).unitLower) <;>
     cases h2 : uniValue S d.lo d.hi (trip (sensCellDim N scale d k).unitUpper) <;> simp
 
+/-- `Sensitivity._labels` / `_physical_values` / the rows of `results.csv`: the `k`-th job is labelled with the
+names of the perturb priors in id order, each with `value_for` of the centre of the cell with the row-major
+digits of `k`; one label per job -/
+theorem sens_labels_row_major (N : Num K) (S : Special K) (trip : K → K) (scale : K) (cfg : Grid.Cfg)
+    (h : cfg.labelsById = true) (namesById namesByAttr : List String) (dims : List (Dim K)) (k : Nat)
+    (hk : k < prod (counts dims)) :
+    (sensLabels N S trip scale cfg namesById namesByAttr dims).length = prod (counts dims) ∧
+    (sensLabels N S trip scale cfg namesById namesByAttr dims)[k]?
+      = some (namesById.zip
+          ((cellAt (sensPhysDim N S trip scale) dims (digits (counts dims) k)).map (·.centre))) := by
+  obtain ⟨hl, hr⟩ := sens_physical_row_major N S trip scale dims k hk
+  constructor
+  · simp [sensLabels, hl]
+  · simp [sensLabels, List.getElem?_map, hr, sensLabelParts, headers, h]
+
 end PhysAny
 
 section PhysField
@@ -669,6 +684,12 @@ example : uniValue AF.Prior.ratSpecial 2 5 (1 / 3) = .ok 3 ∧
 example : (sensPhysCells ratNum AF.Prior.ratSpecial id 1 (sensDims ratNum {} [((2, 5), 3)])).map
       (fun c => c.map fun s => (s.centre, s.limits))
     = [[(.ok (5 / 2), some (2, 3))], [(.ok (7 / 2), some (3, 4))], [(.ok (9 / 2), some (4, 5))]] := by
+  decide +kernel
+
+example : sensLabels ratNum AF.Prior.ratSpecial id 1 {} ["b", "a"] ["a", "b"]
+      (sensDims ratNum {} [((0, 1), 1), ((2, 5), 3)])
+    = [[("b", .ok (1 / 2)), ("a", .ok (5 / 2))], [("b", .ok (1 / 2)), ("a", .ok (7 / 2))],
+       [("b", .ok (1 / 2)), ("a", .ok (9 / 2))]] := by
   decide +kernel
 
 /-- known finding `C16-prior-unit-end-outside-limits` at the level of doubles: for this prior the raw
